@@ -93,6 +93,7 @@ type rig struct {
 	srv    *jrpc2.Server
 	asg    []string
 	asgReq []string // per lookup: method | id | params of the inbound request the assigner saw
+	extra  []string // names the assigner gains while the server runs
 }
 
 // spy wraps an assigner to record what InboundRequest(ctx) shows during assignment.
@@ -114,7 +115,17 @@ func (s spy) Assign(ctx context.Context, method string) jrpc2.Handler {
 	}
 	return s.inner.Assign(ctx, method)
 }
-func (s spy) Names() []string { return s.inner.(jrpc2.Namer).Names() }
+func (s spy) Names() []string {
+	n := s.inner.(jrpc2.Namer).Names()
+	s.r.mu.Lock()
+	defer s.r.mu.Unlock()
+	if len(s.r.extra) == 0 {
+		return n
+	}
+	n = append(append([]string(nil), n...), s.r.extra...)
+	sort.Strings(n)
+	return n
+}
 
 func (r *rig) build(m *Mux, path string) jrpc2.Assigner {
 	if m.T == "map" {
@@ -211,6 +222,45 @@ func TestDispatch(t *testing.T) {
 					add(Cell{Mux: mi + 1, Builtin: builtin, Name: []string{"Names()"}}, fmt.Sprintf("Names() is not sorted: %q", got))
 				} else if fmt.Sprint(got) != fmt.Sprint(want) {
 					add(Cell{Mux: mi + 1, Builtin: builtin, Name: []string{"Names()"}}, fmt.Sprintf("Names() = %q, want %q", got, want))
+				}
+				// the list rpc.serverInfo reports is the assigner's at the time of the call, and nobody else's to change:
+				// not a list remembered from an earlier call, not one a caller of ServerInfo() has written into
+				if builtin && mi%nshard == shard {
+					infoMethods := func() []string {
+						_, outs, _ := feed(`{"jsonrpc":"2.0","id":"i","method":"rpc.serverInfo"}`)
+						var rsp struct {
+							Result struct {
+								Methods []string `json:"methods"`
+							} `json:"result"`
+						}
+						if len(outs) == 1 {
+							json.Unmarshal(outs[0], &rsp)
+						}
+						return rsp.Result.Methods
+					}
+					cell := Cell{Mux: mi + 1, Builtin: builtin, Name: []string{"rpc", "serverInfo"}}
+					res.Evaluations += 3
+					if m := infoMethods(); fmt.Sprint(m) != fmt.Sprint(want) {
+						add(cell, fmt.Sprintf("methods %q, want %q", m, want))
+					}
+					inf := r.srv.ServerInfo()
+					for i := range inf.Methods {
+						inf.Methods[i] = "scribbled"
+					}
+					if m := infoMethods(); fmt.Sprint(m) != fmt.Sprint(want) {
+						add(cell, fmt.Sprintf("after a caller of ServerInfo() wrote into the list it was given: methods %q, want %q", m, want))
+					}
+					r.mu.Lock()
+					r.extra = []string{"zzz.late"}
+					r.mu.Unlock()
+					want2 := append(append([]string(nil), want...), "zzz.late")
+					sort.Strings(want2)
+					if m := infoMethods(); fmt.Sprint(m) != fmt.Sprint(want2) {
+						add(cell, fmt.Sprintf("after the assigner gained a method: methods %q, want %q", m, want2))
+					}
+					r.mu.Lock()
+					r.extra = nil
+					r.mu.Unlock()
 				}
 				for ci, c := range tab.Cells {
 					if c.Mux != mi+1 || c.Builtin != builtin || ci%nshard != shard {
